@@ -879,8 +879,16 @@ func runOpens(work string, r *rand.Rand, env *c05Env, m *c05Markers, in C05Input
 	byClass["key-sequence"] = seq
 	nAlt["key-sequence"] = len(seq)
 	for _, cl := range sortedKeys(byClass) {
-		atts := append([]attempt{first}, byClass[cl]...)
-		recs = append(recs, s.record(in, cl, "", orig, atts, nAlt[cl]))
+		// at most 2000 attempts per case: very long list literals overflow coqc's stack
+		all := byClass[cl]
+		for part := 0; len(all) > 0; part++ {
+			n := min(len(all), 2000)
+			atts := append([]attempt{first}, all[:n]...)
+			rec := s.record(in, cl, "", orig, atts, n/2)
+			rec.Key += fmt.Sprintf(":part%d", part)
+			recs = append(recs, rec)
+			all = all[n:]
+		}
 	}
 	return recs
 }
